@@ -641,7 +641,8 @@ fn faulty(a: &Ast, class: u32, x: u32, y: u32) -> Faulty {
             // duplicated go parameter
             let (k, v) = [("depth", "3"), ("wtime", "1000"), ("infinite", ""), ("ponder", ""), ("movetime", "5"), ("searchmoves", "e2e4"), ("nodes", "7"), ("mate", "2"), ("binc", "0"), ("btime", "1"), ("winc", "2"), ("movestogo", "4")][pick(12, x)];
             let mut t: Vec<String> = vec!["go".into(), k.into()];
-            if !v.is_empty() {
+            // (searchmoves: one occurrence may have an empty list — still the same parameter twice)
+            if !v.is_empty() && !(k == "searchmoves" && y % 3 == 0) {
                 t.push(v.into());
             }
             if y % 2 == 0 {
